@@ -686,7 +686,9 @@ def run_cases(exe, cases, timeout, args=(), pre=(), jobs=8, max_crashes=2):
              "UBSAN_OPTIONS": "print_stacktrace=1", "MALLOC_ARENA_MAX": "2"}
         while todo and len(c) < max_crashes:
             text = "".join(x.text() for x in todo).encode()
-            rc, so, se = vlib.sh2(list(pre) + [exe] + list(args), stdin=text, timeout=timeout, env=e)
+            # the time limit is per process: allow for the number of cases in the chunk (a loaded machine must
+            # not turn a long chunk into a "hang")
+            rc, so, se = vlib.sh2(list(pre) + [exe] + list(args), stdin=text, timeout=timeout + 0.25 * len(todo), env=e)
             got, partial = vlib.split_outputs(so)
             o.update(got)
             if rc == 0 and len(got) == len(todo):
@@ -695,6 +697,15 @@ def run_cases(exe, cases, timeout, args=(), pre=(), jobs=8, max_crashes=2):
             if idx is None:
                 break
             x = todo[idx]
+            if rc == 124:
+                # the chunk ran out of time: the case is blamed only if it does not finish when run alone
+                rc1, so1, se1 = vlib.sh2(list(pre) + [exe] + list(args), stdin=x.text().encode(), timeout=timeout, env=e)
+                got1, _ = vlib.split_outputs(so1)
+                if rc1 == 0 and x.cid in got1:
+                    o.update(got1)
+                    todo = todo[idx + 1:]
+                    continue
+                rc, se = rc1, se1
             c[x.cid] = (rc, crash_summary(se), partial[1] if partial and partial[0] == x.cid else [])
             todo = todo[idx + 1:]
         return o, c
